@@ -383,7 +383,7 @@ pub fn meta(check: &str) -> CheckMeta {
 }
 
 pub fn n_runs(tier: &str) -> u64 {
-    if tier == "quick" { 400_000 } else { 20_000_000 }
+    if tier == "quick" { 400_000 } else { 6_000_000 }
 }
 
 fn clone_probe(table: &InferenceTable<ChalkIr>) -> (usize, String) {
